@@ -1,6 +1,6 @@
 """C20 - schema paths match instance paths; partial decoding equals the full result.
 
-For every document of a bounded, completely enumerated set (all valid instances of 14 generated schema
+For every document of a bounded, completely enumerated set (all valid instances of 15 generated schema
 templates x namespace variants up to a node bound, single-fault variants of the small ones, the
 vehicles / collection example files) and for EVERY element of it, every path form of the element
 (absolute with / without positional predicates, one `*` step at every position, //name, /root//name,
@@ -30,15 +30,17 @@ from mc.gen import docs_c20 as g
 ID = 'C20'
 TITLE = 'Schema paths match instance paths; partial decoding equals the full result'
 RULE = ('every valid instance (<= N elements; leaf and attribute values rotate through a small catalogue) of every '
-        'generated schema (14 templates: local declarations, references, substitution members, one local name with '
+        'generated schema (15 templates: local declarations, references, substitution members, one local name with '
         'different types under different parents, a local name equal to a global one, a named type shared by two '
         'parents, nested same name, duplicate name in one model, simple content with attributes, identity constraints, '
-        'xs:unique / xs:key owned by a repeated element with duplicates in its 1st, 2nd, 3rd instance) '
+        'xs:unique / xs:key owned by a repeated element with duplicates in its 1st, 2nd, 3rd instance, two global root '
+        'candidates with the same local child path and different types) '
         'in no-namespace / qualified (prefixed and default-namespace documents) / unqualified-local variants + every '
         'single-fault variant (bad value, bad attribute, unknown child, unknown attribute, dropped leaf at every node) '
         'of the instances <= Nf elements + the vehicles / collection example files; x every element x every path form '
         '(own path with and without positional predicates, absolute and relative to the root, one * step at each '
-        'position, //name, /root//name, //parent/name[i], //*) x prefixed / default-namespace / document-own spelling '
+        'position (absolute, and relative to the root when the * is below it), '
+        '//name, /root//name, //parent/name[i], //*) x prefixed / default-namespace / document-own spelling '
         'x {find, findall, iterfind, get_element, iter_errors, is_valid, decode (default and JsonML converters)} '
         'x max_depth in {0,1,2,3,None} (whole document, and combined with the own positional path); one evaluation = '
         'one (document, path, spelling, API) comparison; non-trivial = new (schema, path without positions, spelling, '
@@ -786,8 +788,10 @@ def analyse(name, doc):
 
             own_path = bool({'pos', 'nopos'} & paths[steps])
             partial_checks(path, sel, shape, flabel, nsarg, 'pos' in paths[steps])
-            if own_path and judge:
-                # the same path written relative to the root element
+            rel_star = 'star' in paths[steps] and len(steps) >= 2 and steps[0][1] != '*' and \
+                all(a == 'c' for a, _t, _p in steps)
+            if (own_path or rel_star) and judge:
+                # the same path written relative to the root element (own paths, and */name forms)
                 partial_checks(g.render_path(steps[1:], pre, absolute=False) or '.', sel, shape + '|rel', flabel, nsarg, False)
 
     # ---- (c) whole document with max_depth --------------------------------------------------------------------
